@@ -65,6 +65,7 @@ type DeleteStep struct {
 	ID        string   `json:"id"`
 	FhPre     *uint32  `json:"fh_pre"`
 	Finalized bool     `json:"finalized_guard"` // Executer.deleteBlock would have refused (height <= finalized); not enforced here
+	Enforce   bool     `json:"enforce_guard"`   // input: refuse the delete like Executer.deleteBlock when the guard holds
 	DiffFound bool     `json:"diff_found"`
 	Err       *string  `json:"err"`
 	Panic     string   `json:"panic,omitempty"`
